@@ -319,4 +319,4 @@ class InitGlobalsBounded(Unit):
 
 def units(tier):
     from . import c08_init
-    return [OrderUnit(), Chronology(), InitGlobalsBounded()] + (c08_init.units(tier) if tier == 'thorough' else [])
+    return c08_init.units(tier) + [OrderUnit(), Chronology(), InitGlobalsBounded()]
